@@ -51,6 +51,10 @@ func c04ResponseOps() ([]c04RespOp, J) {
 			Specs: []c04Respond{{rs(200, json.RawMessage(`"body text"`), map[string][]string{"X-Rate": {"42"}, "X-List": {"a|b|c"}, "X-When": {"2020-01-02T03:04:05Z"}, "X-Flag": {"true"}, "X-Num": {"2.5"}}), "success", "200"}}},
 		{ID: "rDefaultOnly", Responses: J{"default": J{"description": "d", "schema": J{"type": "string"}}},
 			Specs: []c04Respond{{rs(500, json.RawMessage(`"boom"`), nil), "default-error", "default"}, {rs(404, json.RawMessage(`"gone"`), nil), "default-error", "default"}}},
+		{ID: "rRedirectClass", Responses: J{"200": J{"description": "ok", "schema": J{"$ref": "#/definitions/Pet"}}, "300": J{"description": "choices", "schema": J{"$ref": "#/definitions/Err"}}, "304": J{"description": "not modified"}, "399": J{"description": "odd", "schema": J{"$ref": "#/definitions/Err"}}, "400": J{"description": "bad", "schema": J{"$ref": "#/definitions/Err"}}},
+			Specs: []c04Respond{{rs(200, petBody, nil), "success", "200"}, {rs(300, errBody, nil), "typed-error", "300"}, {rs(304, nil, nil), "typed-error", "304"}, {rs(399, errBody, nil), "typed-error", "399"}, {rs(400, errBody, nil), "typed-error", "400"}, {rs(305, nil, nil), "api-error", ""}}},
+		{ID: "rBoundary2xx", Responses: J{"200": J{"description": "ok"}, "202": J{"description": "accepted", "schema": J{"$ref": "#/definitions/Pet"}}, "299": J{"description": "last 2xx", "schema": J{"type": "string"}}, "500": J{"description": "err", "schema": J{"$ref": "#/definitions/Err"}}},
+			Specs: []c04Respond{{rs(202, petBody, nil), "success", "202"}, {rs(299, json.RawMessage(`"edge"`), nil), "success", "299"}, {rs(500, errBody, nil), "typed-error", "500"}, {rs(200, nil, nil), "success", "200"}}},
 		{ID: "rErrorHeaders", Responses: J{"200": J{"description": "ok"}, "429": J{"description": "slow down", "headers": J{"Retry-After": J{"type": "integer"}}, "schema": J{"$ref": "#/definitions/Err"}}},
 			Specs: []c04Respond{{rs(429, errBody, map[string][]string{"Retry-After": {"30"}}), "typed-error", "429"}, {rs(200, nil, nil), "success", "200"}}},
 	}
@@ -235,6 +239,9 @@ func RunC04(tier, replay string) int {
 		}
 	})
 
+	// ---------------- file uploads (formData type: file, with and without size limits)
+	c04Files(r, s)
+
 	// ---------------- responses
 	rc := cases[len(cases)-1]
 	if rc.Bin == "" {
@@ -387,4 +394,114 @@ func valueClass(ps map[string]json.RawMessage) string {
 	}
 	sort.Strings(parts)
 	return strings.Join(parts, ",")
+}
+
+
+// c04Files: every upload operation (required/optional x no limit / minLength / maxLength / both, with and
+// without a sibling formData field) x every content size inside the limits; the handler must read exactly
+// the bytes the client was given.
+func c04Files(r *evid.Run, s *Scratch) {
+	type fop struct {
+		id     string
+		desc   string
+		param  J
+		extra  bool
+		lo, hi int
+	}
+	var ops []fop
+	n := 0
+	for _, req := range []bool{true, false} {
+		for _, lim := range []struct {
+			name   string
+			kw     J
+			lo, hi int
+		}{{"nolimit", J{}, 0, 1 << 20}, {"minLength2", J{"minLength": 2}, 2, 1 << 20}, {"maxLength8", J{"maxLength": 8}, 0, 8}, {"min2max8", J{"minLength": 2, "maxLength": 8}, 2, 8}} {
+			for _, extra := range []bool{false, true} {
+				p := merge(J{"in": "formData", "name": "upfile", "type": "file"}, lim.kw)
+				if req {
+					p["required"] = true
+				}
+				ops = append(ops, fop{id: fmt.Sprintf("f%02d", n), desc: fmt.Sprintf("file required=%v %s sibling=%v", req, lim.name, extra), param: p, extra: extra, lo: lim.lo, hi: lim.hi})
+				n++
+			}
+		}
+	}
+	doc := J{"swagger": "2.0", "info": J{"title": "verif", "version": "1"}, "consumes": A{"multipart/form-data"}, "produces": A{"application/json"}, "paths": J{}}
+	for _, o := range ops {
+		params := A{o.param}
+		if o.extra {
+			params = append(params, J{"in": "formData", "name": "note", "type": "string"})
+		}
+		at(doc, "paths", "/"+o.id)["post"] = J{"operationId": o.id, "consumes": A{"multipart/form-data"}, "parameters": params, "responses": J{"200": J{"description": "ok"}}}
+	}
+	cases := GenInterop(s, []J{doc})
+	if cases[0].Bin == "" {
+		r.HarnessError("upload document does not generate/build: %s %s", cases[0].GenErr, firstLine(cases[0].BuildErr))
+		return
+	}
+	contents := []string{"", "a", "ab", "hello", "12345678", "123456789", strings.Repeat("x", 5000), "line1\nline2\r\n\x00\u00e9"}
+	var reqs []InteropReq
+	type meta struct {
+		o       fop
+		content string
+	}
+	var metas []meta
+	for _, o := range ops {
+		for _, c := range contents {
+			if len(c) < o.lo || len(c) > o.hi {
+				continue
+			}
+			ps := map[string]json.RawMessage{"upfile": mustJSON(J{"stream": c})}
+			if o.extra {
+				ps["note"] = mustJSON("n")
+			}
+			reqs = append(reqs, InteropReq{Op: o.id, Params: ps})
+			metas = append(metas, meta{o, c})
+		}
+	}
+	res, err := cases[0].Exec(s, reqs)
+	if err != nil {
+		r.HarnessError("%v", err)
+		return
+	}
+	for i, m := range metas {
+		rs := res[i]
+		out := "equal"
+		viol := func(kind, what string) {
+			out = "VIOLATION:" + kind
+			r.Violate(evid.Violation{Signature: fmt.Sprintf("%s | upload | %s | len=%d", kind, m.o.desc, len(m.content)), What: fmt.Sprintf("%s: upload operation {%s}, content of %d bytes: %s", kind, m.o.desc, len(m.content), what),
+				Case: c04Case{Kind: "upload", Request: reqs[i].Params}, Observed: map[string]interface{}{"server_params": rs.ServerParams, "client_error": rs.Error, "wire_status": rs.WireStatus}})
+		}
+		switch {
+		case rs.Panic != "":
+			viol("panic", firstLine(rs.Panic))
+		case rs.CallErr != "" || len(rs.SetErrors) > 0:
+			r.HarnessError("driver could not make the upload call for {%s}: %s %v", m.o.desc, rs.CallErr, rs.SetErrors)
+			out = "harness"
+		case rs.Reached == "":
+			et := ""
+			if rs.Error != nil {
+				et = rs.Error.Text
+			}
+			viol("not-delivered", fmt.Sprintf("a file satisfying the declared size limits does not reach the handler (wire status %d, client error %q)", rs.WireStatus, trunc(et, 200)))
+		default:
+			var got struct {
+				Stream *string `json:"stream"`
+			}
+			for f, v := range rs.ServerParams {
+				if goFieldKey(f) == goFieldKey("upfile") {
+					_ = json.Unmarshal(v, &got)
+				}
+			}
+			if got.Stream == nil || *got.Stream != m.content {
+				g := "<nothing>"
+				if got.Stream != nil {
+					g = fmt.Sprintf("%d bytes %q", len(*got.Stream), trunc(*got.Stream, 40))
+				}
+				viol("value-changed", fmt.Sprintf("the client was given %d bytes, the handler read %s", len(m.content), g))
+			}
+		}
+		r.CaseKeyed(fmt.Sprintf("upload|%s|%d", m.o.id, i), map[string]interface{}{"op": m.o.desc, "content_bytes": len(m.content)}, true, out)
+	}
+	r.Extra["upload_operations"] = len(ops)
 }
